@@ -24,7 +24,7 @@ Proof.
   unfold launch, launch_ex, populate, err_of_wr. rewrite cache_hit_norm. simpl.
   destruct (match c_l (r_im r) with LAbsent => LAwait | x => x end); simpl; try lia;
     destruct (cache_hit k r); simpl; try lia;
-    destruct (f_create pl); simpl; try (unfold creates; simpl; lia);
+    dcreate pl; simpl; try (unfold creates; simpl; lia);
     destruct (eff_wr (r_pc r) (f_del_launch pl)); simpl; unfold creates; simpl; lia.
 Qed.
 
